@@ -162,6 +162,7 @@ class Layout:
             self.assign(st.target, self.binop(st.op, cur, rhs), env, fi)
         elif isinstance(st, ast.For):
             it = self.iterable(self.ev(st.iter, env, fi), st)
+            broke = False
             for item in it:
                 self.assign(st.target, item, env, fi)
                 try:
@@ -169,7 +170,10 @@ class Layout:
                 except _Continue:
                     continue
                 except _Break:
+                    broke = True
                     break
+            if not broke and st.orelse:
+                self.block(st.orelse, env, fi)
         elif isinstance(st, ast.If):
             t = self.test(st.test, env, fi)
             self.block(st.body if t else st.orelse, env, fi)
